@@ -54,7 +54,7 @@ Muts1 ==
   \cup { [node |-> i, op |-> "wt", arg |-> w] : i \in NodeIds, w \in {0, 1, 2, 3, 4, 5, 6, 7} }
   \cup { [node |-> i, op |-> "num", arg |-> n] : i \in NodeIds, n \in {0, 16, 99, 536870911} }
   \cup { [node |-> i, op |-> o, arg |-> 0] : i \in NodeIds, o \in {"dup", "drop", "overlong", "truncLast", "truncHalf", "lenPlus1", "lenHuge"} }
-  \cup { [node |-> i, op |-> "garbage", arg |-> g] : i \in MsgNodes, g \in {1, 2, 3} }
+  \cup { [node |-> i, op |-> "garbage", arg |-> g] : i \in MsgNodes, g \in {1, 2, 3, 4} }    \* 4: a message of length zero
   \cup { [node |-> i, op |-> "repeat", arg |-> n] : i \in {5, 6}, n \in {0, 2, 3} }      \* 0 / 2 / 3 location ids or values (unpacked)
   \cup { [node |-> i, op |-> "pack", arg |-> n] : i \in {5, 6}, n \in {0, 1, 3} }        \* the same as one packed field
 Wraps == {"none", "gzip", "gzipTrunc", "gzipBadMagic", "gzipTwice", "concat", "empty", "gzipEmpty"}
@@ -62,7 +62,7 @@ Wraps == {"none", "gzip", "gzipTrunc", "gzipBadMagic", "gzipTwice", "concat", "e
 \* legacy documents: base document name x mutation class x position
 LegacyDocs == {"heap", "heap_v2", "heapprofile", "growth", "gocount", "contention", "mutex", "threadz", "cpu64le", "cpu32be", "javaheap", "javacont"}
 LegacyMuts == {"none", "numNonNumeric", "numHuge", "numNegative", "numEmpty", "dropAt", "dropLine", "dupLine", "truncFrac", "garbageLine", "crlf",
-               "dropMapHeader", "mapGarbage", "mapAnonHuge", "mapEmpty", "mapOddName", "addrOverflow", "nstkHuge", "noEndMarker", "wordSwap"}
+               "dropMapHeader", "mapGarbage", "mapAnonHuge", "mapEmpty", "mapOddName", "emptyStack", "addrOverflow", "nstkHuge", "noEndMarker", "wordSwap"}
 Positions == IF Tier = "thorough" THEN 0..11 ELSE 0..3
 
 VARIABLES pc, muts, wrap, legacy
